@@ -309,12 +309,13 @@ where
 /// central moment as a function of the sample mean.
 ///
 /// It takes as input all moments up to order *p*, ordered by power magnitude - *p* is
-/// inferred to be the length of the *moments* array.
+/// inferred from the length of the *moments* array, which holds the *p + 1* moments of
+/// order 0 to *p*.
 fn central_moment_coefficients<A>(moments: &[A]) -> Vec<A>
 where
     A: Float + FromPrimitive,
 {
-    let order = moments.len();
+    let order = moments.len().saturating_sub(1);
     IterBinomial::new(order)
         .zip(moments.iter().rev())
         .map(|(binom, &moment)| A::from_usize(binom).unwrap() * moment)
